@@ -1,19 +1,20 @@
 \* C04 design model: the disciplined model allocator (asks the OS only when the request does not
 \* fit, stays inside the envelope and the steady-state bound) satisfies every C04 invariant
 CONSTANTS
-  Arena = 12
+  Arena = 8
   Huge = 7
-  Gran = 4
+  Gran = 2
   Slack = 0
   EnvK = 1
   EnvC = 0
   Ids = {1, 2}
-  Sizes = {3, 5}
+  Sizes = {3}
   Aligns = {1}
   MapSizes = {4, 8}
   Page = 4
   MaxOs = 2
-  MaxReps = 4
+  MaxReps = 2
+  Base0 = 1
   TrackC04 = TRUE
   Disciplined = TRUE
 INIT Init
